@@ -461,14 +461,23 @@ pub fn run_c05_configs(rep: &Report, tier: Tier) {
 /// Batch trackers: several scenes submitted in ONE batch. Every scene's records must equal those of a
 /// fresh tracker of the same kind that is fed only that scene (single-scene batches).
 pub fn run_multi_scene_batches(rep: &Report, tier: Tier) {
+    // every detection of the menu carries its OWN feature vector (the three looks plus a small component unique to
+    // the detection): two tracks that hold bit-identical features give a third detection two appearance claims of
+    // exactly equal weight - an exact tie, which the property excludes and the library breaks by hash order
+    // (the thorough tier met this at depth 3: [list 2, list 1, list 2] puts the look b into two tracks)
+    let uniq = |base: Vec<f32>, k: usize| -> Vec<f32> {
+        let mut v = base;
+        v[9] = 0.004 * (k as f32 + 1.0);
+        v
+    };
     let (a, a1, b) = (fa(), fa1(), fb());
     let ls: Arc<Vec<Vec<Det>>> = Arc::new(vec![
-        vec![p().feat(&a, 0.9)],
-        vec![p().feat(&a, 0.9), p().shift(2.0, 0.0).feat(&b, 0.9)], // mutual occlusion: low own-area shares
+        vec![p().feat(&uniq(a.clone(), 0), 0.9)],
+        vec![p().feat(&uniq(a.clone(), 1), 0.9), p().shift(2.0, 0.0).feat(&uniq(b.clone(), 2), 0.9)], // mutual occlusion: low own-area shares
         // (0.5, 1.0) and not (1, 1): the latter is equidistant from the two boxes of the previous list - an exact tie
-        vec![q().feat(&b, 0.9), p().shift(0.5, 1.0).feat(&a1, 0.9)],
-        vec![p().shift(30.0, 0.0).feat(&a, 0.9)],                   // moved beyond positional reach: only the feature vote re-attaches
-        vec![p().shift(0.25, 0.5).feat(&a1, 0.9)],
+        vec![q().feat(&uniq(b.clone(), 3), 0.9), p().shift(0.5, 1.0).feat(&uniq(a1.clone(), 4), 0.9)],
+        vec![p().shift(30.0, 0.0).feat(&uniq(a.clone(), 5), 0.9)],                   // moved beyond positional reach: only the feature vote re-attaches
+        vec![p().shift(0.25, 0.5).feat(&uniq(a1.clone(), 6), 0.9)],
     ]);
     let nl = ls.len();
     // ops: single-scene batches and two-scene batches
@@ -501,6 +510,7 @@ pub fn run_multi_scene_batches(rep: &Report, tier: Tier) {
         }
     }
     let mut total = 0u64;
+    let mut skipped_ties = 0u64;
     for cfg in cfgs {
         if rep.out_of_time() {
             rep.cap_hit("wall budget reached in the multi-scene batch part");
@@ -516,6 +526,7 @@ pub fn run_multi_scene_batches(rep: &Report, tier: Tier) {
         let (hs2, ls2, cfg2, ops2) = (hs.clone(), ls.clone(), cfg.clone(), ops.clone());
         let outs = run_jobs(nchunks, move |ci| {
             let mut viol: Vec<(Vec<Vec<Call>>, String, String)> = vec![];
+            let mut ties = 0u64;
             let mut cache: BTreeMap<Vec<Call>, Vec<Vec<Rec>>> = BTreeMap::new();
             for w in &hs2[ci * chunk..((ci + 1) * chunk).min(hs2.len())] {
                 let h: Vec<Vec<Call>> = w.iter().map(|o| ops2[*o].clone()).collect();
@@ -545,17 +556,25 @@ pub fn run_multi_scene_batches(rep: &Report, tier: Tier) {
                     let (mut m, mut rm) = (BTreeMap::new(), BTreeMap::new());
                     for (k, (x, y)) in inter.iter().zip(solo.iter()).enumerate() {
                         if let Err(e) = same_records(x, y, &mut m, &mut rm, false) {
-                            viol.push((h.clone(), "isolation/scene-in-shared-batch-differs-from-solo-run".into(), format!("scene {s}, its call #{k}: {e}")));
+                            // a difference counts only if the solo run itself is reproducible: an exact tie (broken by
+                            // the hash order of a fresh map in every run) makes the solo transcripts differ among themselves
+                            let reproducible = (0..6).all(|_| transcript(&cfg2, &ls2, &proj) == solo);
+                            if reproducible {
+                                viol.push((h.clone(), "isolation/scene-in-shared-batch-differs-from-solo-run".into(), format!("scene {s}, its call #{k}: {e}")));
+                            } else {
+                                ties += 1;
+                            }
                             break;
                         }
                     }
                 }
             }
-            viol
+            (viol, ties)
         });
         for o in outs {
             match o {
-                Ok(v) => {
+                Ok((v, t)) => {
+                    skipped_ties += t;
                     for (h, key, what) in v {
                         rep.violation(Violation { key, what, replay: json!({"part":"multi-scene batches","config":cfg.json(),"batches":h,"lists":ls.iter().map(|l| l.iter().map(|d| d.json()).collect::<Vec<_>>()).collect::<Vec<_>>()}) });
                     }
@@ -568,4 +587,5 @@ pub fn run_multi_scene_batches(rep: &Report, tier: Tier) {
     }
     rep.distinct_count(total);
     rep.extra("multi_scene_batch_histories", json!(total));
+    rep.extra("multi_scene_batch_histories_skipped_because_the_solo_run_is_not_reproducible", json!(skipped_ties));
 }
